@@ -262,6 +262,10 @@ def run(ctx):
         ps = rng_choice(ctx, [ctx.rng.randint(1, 12), ctx.rng.randint(13, 300), 512])
         cnt = rng_choice(ctx, [1, 2, ctx.rng.randint(1, 3 * max(pm, ps) + 5), ctx.rng.randint(1, 6000)])
         wl.append(f"{pm} {ps} {ctx.rng.randint(0, 3)} {cnt}")
+    # the same with the whole run observed (NOPs before and after the WAIT are single-instruction steps)
+    for _ in range(200 if ctx.tier == "thorough" else 30):
+        pm, ps = ctx.rng.randint(2, 12), ctx.rng.randint(2, 12)
+        wl.append(f"{pm} {ps} {ctx.rng.randint(0, 6)} {ctx.rng.randint(1, 3 * max(pm, ps))} all")
     if ctx.tier == "thorough":
         wl.append("2048 512 0 0")
     wo, we = common.run_sharded(PYDRV, ["timer_wait " + l for l in wl], env=env)
